@@ -41,6 +41,10 @@ def make_overlay(scratch, pkgs, extra=None):
     Every *.go under /verif/harness/go/<dir>/ is mapped into /repo/<dir>/, plus
     the generated runtime and replay test. extra: {virtual: real}."""
     rep = {}
+    pkgs = list(pkgs)
+    # the wasm build tool needs the accessor added to the allocator package
+    if any(p["dir"] == "internal/zzverif/wbuild" for p in pkgs) and not any(p["dir"] == "internal/waroot/malloc" for p in pkgs):
+        pkgs.append({"dir": "internal/waroot/malloc", "name": "malloc", "rt": False})
     for p in pkgs:
         d, name = p["dir"], p["name"]
         hdir = os.path.join(VERIF, "harness", "go", d)
@@ -88,6 +92,9 @@ def run_gosym(scratch, overlay, pkgdir, harnesses=None, jobs=None, opts=None, ta
     return res
 
 
+WBUILD_TIMEOUT = 600
+
+
 def build_wasm(scratch, overlay, cmds):
     """Run the wbuild tool (overlaid into /repo) on a batch of commands; each command is a list of words."""
     lst = os.path.join(scratch, "wbuild_%d.txt" % (time.time_ns() % 10**9))
@@ -95,7 +102,7 @@ def build_wasm(scratch, overlay, cmds):
         for c in cmds:
             fh.write(" ".join(c) + "\n")
     r = subprocess.run(["go", "run", "-tags", "verif", "-overlay", overlay, "./internal/zzverif/wbuild", "batch", lst],
-                       cwd=REPO, env=GOENV, capture_output=True, text=True)
+                       cwd=REPO, env=GOENV, capture_output=True, text=True, timeout=WBUILD_TIMEOUT)
     if r.returncode != 0:
         raise Inconclusive("WASM-BUILD-FAILED (wbuild with the current tree): " + (r.stderr or r.stdout)[-3000:])
 
@@ -107,7 +114,7 @@ def build_wasm_keepgoing(scratch, overlay, cmds):
         for c in cmds:
             fh.write(" ".join(c) + "\n")
     r = subprocess.run(["go", "run", "-tags", "verif", "-overlay", overlay, "./internal/zzverif/wbuild", "batch-keepgoing", lst],
-                       cwd=REPO, env=GOENV, capture_output=True, text=True)
+                       cwd=REPO, env=GOENV, capture_output=True, text=True, timeout=WBUILD_TIMEOUT)
     if r.returncode != 0:
         raise Inconclusive("WASM-BUILD-FAILED (wbuild with the current tree): " + (r.stderr or r.stdout)[-3000:])
     failed = {}
@@ -432,8 +439,9 @@ class GoCheck:
         return 0
 
 
-def replay_file(prop, path):
-    """Re-run the native side of a recorded violation."""
+def replay_file(prop, path, prepare=None):
+    """Re-run the native side of a recorded violation.  prepare(scratch) -> (extra overlay entries, extra
+    packages) lets a check rebuild what its harness needs (wasm modules, generated files) from the current tree."""
     rec = json.load(open(path))
     sc = scratch_dir(prop + "-replay")
     try:
@@ -442,7 +450,12 @@ def replay_file(prop, path):
         extra = {}
         for sub, virt in rec.get("third_party", []):
             extra.update(third_party_overlay(sub, virt))
-        ov = make_overlay(sc, [{"dir": pkgdir, "name": name}], extra)
+        pkgs = [{"dir": pkgdir, "name": name}]
+        if prepare:
+            ex2, pk2 = prepare(sc)
+            extra.update(ex2)
+            pkgs += pk2
+        ov = make_overlay(sc, pkgs, extra)
         binp = build_replay_bin(sc, ov, pkgdir)
         outs = native_replay(sc, binp, [{"harness": rec["harness"], "case": rec["case"], "inputs": rec["inputs"]}])
         print("\n".join(outs[0]))
